@@ -250,6 +250,20 @@ def main(tier):
                             wr.setdefault(t["field"], []).append((q, ir.locstr(n)))
                             if k == "Assign" or (k == "OpCall" and n.get("op") == "="):
                                 targets.add(id(t))
+                            if (k == "Assign" and n.get("op") != "=") or (k == "OpCall" and n.get("op") != "=") or k == "Un":
+                                # `m += e`, `++m`: the read of m inside its own update flows back into m only (a timer,
+                                # a call counter); it is a read that matters only if e itself mentions m again
+                                targets.add(id(t))
+                            elif k == "Assign" and n.get("op") == "=":
+                                # `m = m + e`: same
+                                rhs_ = n["b"]
+                                while rhs_.get("k") in ("Paren", "Cast", "ImplicitCast") and rhs_.get("e") is not None:
+                                    rhs_ = rhs_["e"]
+                                if rhs_.get("k") == "Bin" and rhs_.get("op") in ("+", "-"):
+                                    for side in (rhs_["a"], rhs_["b"]):
+                                        s_ = strip(side)
+                                        if structq.is_this_field(s_) and s_["field"] == t["field"]:
+                                            targets.add(id(s_))
                 for n in ir.walk(f["body"]):
                     if structq.is_this_field(n) and id(n) not in targets:
                         rd.setdefault(n["field"], []).append((q, ir.locstr(n)))
@@ -273,7 +287,7 @@ def main(tier):
         if not wr:
             ck.ok("R-C13-6", e, sample={"function": e, "methods of its class reached": len(seen), "members written": 0} if e == "GMGPolar::computeExactError" else None)
             continue
-        m_ = sorted(wr)[0]
+        m_ = (sorted(m2 for m2 in wr if m2 in rd) or sorted(wr))[0]
         q, loc = wr[m_][0]
         carried = m_ in rd
         if e.startswith("GMGPolar::"):
@@ -283,9 +297,14 @@ def main(tier):
                 ck.violation("R-C13-6", "%s:%s" % (e, m_), loc, "%s writes the member %s at %s and reads it at %s, and setup() does not re-establish it: what one call leaves there decides a later call, also after setup() for another problem (the driver analysis treats %s as a pure function of its arguments)" % (
                     q, m_, loc, rd[m_][0][1], e))
             else:
-                raise ir.AnalysisBroken("%s now writes the member %s (%s), which its operator signature in the driver analysis does not describe" % (e, m_, loc))
+                # written (accumulated) but never read by the function or by anything it reaches in its class: a statistic
+                # (timer, call counter) that cannot influence what the function computes
+                ck.ok("R-C13-6", e)
         else:
-            raise ir.AnalysisBroken("%s writes the member %s of its operator object (%s): the operator keeps state between applications, which the one-application analyses of C03/C04/C06/C07/C08 do not model" % (q, m_, loc))
+            carried_any = [m2 for m2 in wr if m2 in rd]
+            if carried_any:
+                raise ir.AnalysisBroken("%s writes and reads the member %s of its operator object (%s): the operator keeps state between applications, which the one-application analyses of C03/C04/C06/C07/C08 do not model" % (q, carried_any[0], wr[carried_any[0]][0][1]))
+            ck.ok("R-C13-6", e)      # write-only statistics of the operator object
     # ---- R-C13-7: what the driver analysis calls an 'out' parameter really is one.  The operator signature table says which
     # vector a summarised function overwrites completely; the value-flow then forgets that vector's previous contents.  If the
     # function reads the parameter (or updates it with +=), whatever an earlier solve left there flows into the result.
